@@ -26,7 +26,7 @@ REAL = ["bec2format.bf3file / bec2file / crypto registry", "register_crypto_plug
         "when the fault arm is active)"]
 STUBS = ["medium: SimFS", "RNG: SimRng", "cipher fault wrapper FaultyAES / abstract base class for 'missing'",
          "RefAES, RefDir (independent models)"]
-PROBES = ["rewritten-under-second-key", "content-longer-than-4096", "content-multiple-of-16", "content-trailing-zero", "content-all-zero", "cipher-missing", "cipher-raised-at-k",
+PROBES = ["concurrent-writers-same-key", "rewritten-under-second-key", "content-longer-than-4096", "content-multiple-of-16", "content-trailing-zero", "content-all-zero", "cipher-missing", "cipher-raised-at-k",
           "write-failed-no-file", "write-failed-file-exists", "rewrite-same-ciphertext", "bec2-framing", "config-component",
           "secrecy-needles-checked"]
 ASSUMPTIONS = ["encrypted content is defined up to its declared length; the reader returns the zero-padded plaintext"]
@@ -58,6 +58,18 @@ def make_faulty(real_cls, state):
 def gen(st, tier):
     w = st["workload"]
     f = st["faults"]
+    if w.random() < 0.04:
+        # concurrent writers under one session key, each with its own package object
+        from sim import conc
+        pre, ch = conc.sched_spec(st["schedule"])
+        objs = []
+        for _ in range(2):
+            c = G.component_spec(w, enc=True, max_len=120)
+            c["blob"] = {"len": w.choice([17, 33, 48, 64, 100]), "fill": "rand", "tail0": w.choice([0, 0, 3]),
+                         "s": w.getrandbits(32)}
+            c["alen"] = None
+            objs.append({"comments": [], "components": [c]})
+        return {"conc": True, "objs": objs, "key": G.session_key_spec(w), "preempt": pre, "choices": ch}
     kind = w.choice(["bf3", "bf3", "bec2"])
     spec = files.file_spec(w, kind=kind, p_enc=0.0, max_len=120)
     comps = spec["obj"]["components"][:2]
@@ -110,7 +122,65 @@ def _scan(needles, durable, binary):
     return None
 
 
+def _run_conc(case):
+    from sim import conc
+    out = Outcome()
+    key = bytes.fromhex(case["key"])
+
+    def make_bodies(s):
+        fs = SimFS()
+        env.bf3file.open = fs.open
+
+        def body(i):
+            def fn():
+                obj = G.build_bf3(case["objs"][i], env)
+                model = G.snapshot_bf3(obj)
+                name = "t%d.bf3" % i
+                h = fs.open(name, "w")
+                try:
+                    obj.write_file(h, key)
+                finally:
+                    h.close()
+                head, binary = files.binary_of(fs.files[name])
+                got = env.bf3file.Bf3File.read_file(name, True, key)
+                return (binary, G.compare_bf3(model, got), model)
+            return fn
+        return [body(i) for i in range(len(case["objs"]))]
+    try:
+        dry, cc, pre = conc.run_conc(make_bodies, case["preempt"], case["choices"], first=0)
+    finally:
+        env.restore_registry()
+    npre = sum(1 for d in cc.decisions if d[3] == "preempt")
+    out.fired["preempt"] += npre
+    out.nontrivial = npre > 0
+    out.probes["concurrent-writers-same-key"] += 1
+    out.ev("conc", tuple(cc.decisions), cc.aborted, [type(t.exc).__name__ for t in cc.threads])
+    narrow = dict(case, preempt=[["abs", p] if isinstance(p, int) else list(p) for p in pre])
+    if any(t.exc is not None for t in dry.threads):
+        out.ev("sequential-raises")
+        return out
+    for i, t in enumerate(cc.threads):
+        if cc.aborted or t.exc is not None:
+            out.fail("C06.concurrent", "raises", "thread %d: %s %r (schedule %s)" % (i, cc.aborted, t.exc, cc.decisions), narrow)
+            continue
+        binary, diff, model = t.result
+        regions, info = refdir.walk(binary)
+        for k, e in enumerate(info["entries"]):
+            m = model["components"][k]
+            if m["enc"]:
+                stored = binary[e["adr"]:e["adr"] + e["total"]]
+                if stored != refaes.cbc_enc(key, bytes(16), refaes.zpad(m["blob"])):
+                    out.fail("C06.stored-not-ciphertext", "concurrent",
+                             "thread %d: with another thread encrypting under the same key, the stored component is "
+                             "not AES-CBC(zero IV) of its content (schedule %s)" % (i, cc.decisions), narrow)
+        if diff:
+            out.fail("C06.readback", "concurrent-" + diff[0], "thread %d: %s (schedule %s)" % (i, diff[1], cc.decisions), narrow)
+    return out
+
+
 def run(case):
+    if case.get("conc"):
+        return _run_conc(case)
     out = Outcome()
     fs = SimFS()
     env.restore_registry()
@@ -306,6 +376,11 @@ def run(case):
 
 
 def shrink(case):
+    if case.get("conc"):
+        pre = case["preempt"]
+        for i in range(len(pre)):
+            yield dict(case, preempt=pre[:i] + pre[i + 1:])
+        return
     if case.get("blocks") and len(case["blocks"]) > 1:
         for i in range(len(case["blocks"])):
             yield dict(case, blocks=case["blocks"][:i] + case["blocks"][i + 1:])
